@@ -8,6 +8,12 @@
     the visited table, the sorted row and the translated / corrected public `query` answer are
     compared bit-for-bit.  The hypotheses of `C02.search_sound` (CSR well-formed, leaf duplicate
     free, draws `< n`) are checked on the real inputs as well.
+(a') the same for the SPARSE `search_closure` of `_init_sparse_search_function` (real CSR indexes over
+    integer-valued data): the model is unchanged — it takes the distances of the query as a table, and
+    the table comes from the real sparse kernel `_distance_func(ind_v, data_v, q_ind, q_data)` on the
+    stored (permuted) CSR rows; leaf from the real `sparse_tree_search_closure`; the query is handed to
+    `query()` as sorted CSR / unsorted CSR / CSR with a stored zero / ndarray and the closure gets what
+    `query()`'s sparse branch makes of it (`check_array`, `csr_matrix`, `sorted_indices`).
 (b) API level: the property predicate on the real `query` output for dense / CSR / bit-packed
     indexes x tree_init x compressed x parallel_batch_queries, k > n_neighbors, k > n, zero-norm
     queries under cosine / dot, data points as queries, epsilon in {0, 0.1, 0.5}; distances are
@@ -142,11 +148,13 @@ def visited_set(table, n):
 def closure_inputs(idx, q, k):
     """What `search_closure` sees for this single-row batch, taken from the real objects in the
     order the closure uses them.  Returns (leaf, draws [3 more than the code consumes], whether the tree
-    search consumed generator values, number of draws the code makes)."""
-    n = idx._raw_data.shape[0]
+    search consumed generator values, number of draws the code makes).  `q`: the dense query row, or the
+    pair (indices, data) of the CSR query row for the sparse closure (`sparse_tree_search_closure`)."""
+    n = idx._raw_data.shape[0]                  # sparse closure: `n_index_points = data_indptr.shape[0] - 1`
     st = np.copy(idx.search_rng_state)          # `internal_rng_state = np.copy(rng_state)`
     before = st.copy()
-    b = idx._tree_search(q, st)                 # may consume generator values on hyperplane ties
+    targs = q if isinstance(q, tuple) else (q,)
+    b = idx._tree_search(*targs, st)            # may consume generator values on hyperplane ties
     consumed = not np.array_equal(before, st)
     if idx.tree_init:
         leaf = [int(v) for v in idx._search_forest[0].indices[int(b[0]):int(b[1])]]
@@ -279,6 +287,176 @@ def kernel_level(res, rng, plans, n_queries, combos_per_query):
         judge_pending(res, pending)
 
 
+# ----------------------------------------------------------------------------------------------
+# (a') kernel level, sparse closure (`_init_sparse_search_function`)
+
+def gen_sparse_int_data(rng, n, dim, style, distinct):
+    """dense float32 matrix M (every row non-empty: empty CSR operands make `sparse_dot_product` /
+    `sparse_select_side` read out of bounds) to be handed over as csr_matrix(M).  `distinct`: no two equal
+    rows (tree_init=True: two equal pivots give an all -1 hyperplane row, again an out-of-bounds read —
+    memory safety is outside the model, C14's note); distances still tie heavily."""
+    def draw(m):
+        if style == "tiny":
+            V = rng.integers(0, 4, size=(m, dim)).astype(float)
+        elif style == "grid":
+            V = rng.integers(-4, 9, size=(m, dim)).astype(float)
+        elif style == "line":        # one stored entry per row: every integer distance occurs (candidates ON the rounded bound)
+            V = np.zeros((m, dim))
+            V[:, 0] = rng.integers(1, 2 * n + 1, size=m)
+            return V
+        elif style == "half":
+            V = rng.integers(-20, 21, size=(m, dim)) / 2.0
+        else:                        # "real"
+            V = rng.standard_normal((m, dim)) * 3.0
+        V = V * (rng.random((m, dim)) < 0.55)
+        for i in range(m):
+            if not V[i].any():
+                V[i, int(rng.integers(dim))] = 1.0
+        return V
+    M = np.ascontiguousarray(draw(n), dtype=np.float32)
+    if distinct:
+        for _ in range(60):
+            seen, dup = set(), []
+            for i in range(n):
+                key = M[i].tobytes()
+                if key in seen:
+                    dup.append(i)
+                seen.add(key)
+            if not dup:
+                break
+            M[dup] = draw(len(dup)).astype(np.float32)
+        else:
+            for i in dup:            # value space exhausted: make the leftovers distinct by hand
+                M[i, dim - 1] = np.float32(100 + i)
+    return M
+
+
+def on_bound_ks(dq, eps):
+    """the k for which a COMPLETED search ends with a stored point exactly on the float32 bound: the k-th smallest distance r
+    closes its tie group and some row lies at fl32(fl32(1 + eps) * r) > r.  (Whether `d < distance_bound` is evaluated on
+    the float32 product or on a wider one decides such a candidate; random k hits this in ~0.5 % of the cases only.)"""
+    sd = np.sort(dq)
+    b = (np.float32(1.0 + eps) * sd).astype(np.float32)
+    present = set(dq.tolist())
+    return [j + 1 for j in range(len(sd) - 1) if sd[j] > 0 and sd[j + 1] > sd[j] and b[j] > sd[j] and float(b[j]) in present]
+
+
+QUERY_FORMS = ["csr", "unsorted", "ndarray", "stored_zero"]
+
+
+def sparse_query_forms(q, form):
+    """(what the caller hands to `query`, what the sparse branch of `query` hands to the closure).
+    The second is computed the way `query` does it: check_array(accept_sparse='csr', float32),
+    csr_matrix(...) unless already CSR, sorted_indices() unless sorted."""
+    from sklearn.utils import check_array
+    dim = q.shape[0]
+    nz = np.flatnonzero(q).astype(np.int32)
+    if form == "unsorted" and len(nz) >= 2:
+        ind = nz[::-1].copy()
+        Q = sp.csr_matrix((q[ind].astype(np.float32), ind, np.array([0, len(ind)], dtype=np.int32)), shape=(1, dim))
+    elif form == "ndarray":
+        Q = q[None, :].copy()
+    elif form == "stored_zero" and len(nz) < dim:
+        z = int(np.flatnonzero(q == 0)[0])
+        ind = np.sort(np.append(nz, np.int32(z))).astype(np.int32)
+        Q = sp.csr_matrix((q[ind].astype(np.float32), ind, np.array([0, len(ind)], dtype=np.int32)), shape=(1, dim))
+    else:
+        form = "csr"
+        Q = sp.csr_matrix(q[None, :].astype(np.float32))
+    P = check_array(Q.copy() if sp.issparse(Q) else Q, accept_sparse="csr", dtype=np.float32)
+    if not sp.isspmatrix_csr(P):
+        P = sp.csr_matrix(P, dtype=np.float32)
+    if not P.has_sorted_indices:
+        P = P.sorted_indices()
+    return form, Q, P
+
+
+def sparse_kernel_level(res, rng, plans, n_queries, combos_per_query):
+    """plans: list of (metric, tree_init, n, dim, n_neighbors, style).  Same comparison as `kernel_level`, on the
+    closure of `_init_sparse_search_function`; findings are named `sparse_search_closure_bit_exact`, counters `s_…`."""
+    for (metric, tree_init, n, dim, nn, style) in plans:
+        pending, t_plan = [], time.time()
+        M = gen_sparse_int_data(rng, n, dim, style, distinct=tree_init)
+        X = sp.csr_matrix(M)
+        seed = int(rng.integers(1 << 30))
+        cfg = {"sparse": True, "metric": metric, "tree_init": tree_init, "n": n, "dim": dim, "n_neighbors": nn, "style": style,
+               "random_state": seed,
+               "data": M.tolist() if n <= 40 else "csr_matrix(gen_sparse_int_data(default_rng(seed+202202), ...)) in plan order"}
+        try:
+            idx = NNDescent(X, metric=metric, n_neighbors=nn, random_state=seed, tree_init=tree_init,
+                            parallel_batch_queries=False)
+            idx.prepare()
+        except Exception as e:  # noqa
+            res.violation("query:raises", "%s: %s" % (type(e).__name__, str(e)[:200]), cfg)
+            continue
+        res.count("s_index_%s_tree%d" % (metric, int(tree_init)))
+        t_built = time.time() - t_plan
+        g = idx._search_graph
+        indptr, indices = np.asarray(g.indptr), np.asarray(g.indices)
+        vo = np.asarray(idx._vertex_order)
+        raw = idx._raw_data                       # CSR, rows permuted: `self._raw_data[self._vertex_order, :]`
+        rp, ri, rd = np.asarray(raw.indptr), np.asarray(raw.indices), np.asarray(raw.data)
+        dist = idx._distance_func
+        corr = idx._distance_correction
+        far = far_end(idx)
+        D64 = M.astype(np.float64)
+        if not (sp.isspmatrix_csr(raw) and raw.shape == X.shape and np.array_equal(raw.toarray(), M[vo])):
+            res.corr_fail("search_theorem_hypotheses", cfg, "raw = data ∘ vo", "_raw_data is not X[_vertex_order]")
+        if not all(np.all(np.diff(ri[rp[v]:rp[v + 1]]) > 0) and rp[v + 1] > rp[v] for v in range(n)):
+            res.corr_fail("search_theorem_hypotheses", cfg, "stored CSR rows sorted, non-empty", "a stored row is empty or unsorted")
+        if tree_init:       # an internal node whose hyperplane is all -1 is routed through with an out-of-bounds read: not generated
+            t = idx._search_forest[0]
+            res.count("s_empty_hyperplane_nodes", int(((t.children[:, 0] > 0) & (t.hyperplanes[:, 0, :] < 0).all(axis=1)).sum()))
+        graph_part = "%s | %s" % (ints_row(indptr), ints_row(indices))
+        ks = k_choices(n, nn)
+        if style == "line":
+            ks = sorted({3, nn, 2 * nn, 2 * nn + 1, 2 * nn + 2, 4 * nn, 4 * nn + 1})
+        for j, (qkind, q) in enumerate(gen_queries(rng, M, n_queries, style)):
+            if qkind != "point":                  # sparsify the query as well
+                q = (q * (rng.random(dim) < 0.7)).astype(np.float32)
+            if not q.any():
+                q[int(rng.integers(dim))] = np.float32(1.0)
+            form, Q, P = sparse_query_forms(q, QUERY_FORMS[(j // 5 + j) % len(QUERY_FORMS)])
+            qi, qp, qd = P.indices, P.indptr, P.data
+            dq = np.array([np.float32(dist(ri[rp[v]:rp[v + 1]], rd[rp[v]:rp[v + 1]], qi, qd)) for v in range(n)], dtype=np.float32)
+            dq_part = bits_row(dq)
+            for _ in range(combos_per_query):
+                k = int(ks[int(rng.integers(len(ks)))])
+                eps = float(EPSILONS[int(rng.integers(len(EPSILONS)))])
+                if style == "line" and rng.random() < 0.7:
+                    eps = 0.1
+                if style == "line" and eps > 0 and rng.random() < 0.6:
+                    kd = on_bound_ks(dq, eps)
+                    if kd:
+                        k = int(kd[int(rng.integers(len(kd)))])
+                        res.count("s_k_aimed_at_rounded_bound")
+                leaf, draws, consumed, want = closure_inputs(idx, (qi, qd), k)
+                hyp = hypotheses_ok(n, indptr, indices, leaf, draws)
+                case = {"index": cfg, "query": q.tolist(), "query_form": form, "k": k, "epsilon": eps}
+                if hyp:
+                    res.corr_fail("search_theorem_hypotheses", case, "hypotheses of C02.search_sound", hyp)
+                st0 = idx.search_rng_state.copy()
+                r = idx._search_function(qi, qp, qd, k, eps, idx._visited, idx.search_rng_state)
+                hi, hd = r[0][0].copy(), r[1][0].copy()
+                vis = visited_set(idx._visited, n)
+                if not np.array_equal(st0, idx.search_rng_state):     # the draws are taken from a copy: `query` below sees the same ones
+                    res.corr_fail("sparse_search_closure_bit_exact", {**case, "stage": "rng state"},
+                                  "search_rng_state unchanged " + ints_row(st0), ints_row(idx.search_rng_state))
+                si, sd = idx._deheap_function(r[0].copy(), r[1].copy())
+                pub_i, pub_d = idx.query(Q, k=k, epsilon=eps)
+                line = "search %d %d %d | %s | %s | %s | %s | %d" % (
+                    n, k, nn, graph_part, dq_part, ints_row(leaf), ints_row(draws), f32bits(np.float32(1.0 + eps)))
+                ctx = dict(case=case, heap=bits_row(hd) + " ; " + ints_row(hi), srt=bits_row(sd[0]) + " ; " + ints_row(si[0]),
+                           vis=vis, pub_i=pub_i[0], pub_d=pub_d[0], vo=vo, corr=corr, far=far, D64=D64, metric=metric,
+                           n=n, k=k, qkind=qkind, leaf=len(leaf), want=want, consumed=consumed, eps=eps, nn=nn,
+                           dq=dq, hi=hi, hd=hd, style=style, name="sparse_search_closure_bit_exact", pfx="s_", form=form)
+                pending.append((line, ctx))
+        t_real = time.time() - t_plan
+        judge_pending(res, pending)
+        res.notes.append("sparse kernel %s tree_init=%s n=%d %s: build+prepare %.1f s, real calls %.1f s, model %.1f s" % (
+            metric, tree_init, n, style, t_built, t_real - t_built, time.time() - t_plan - t_real))
+
+
 def judge_pending(res, pending):
     if not pending:
         return
@@ -302,17 +480,19 @@ def judge_pending(res, pending):
 def judge_kernel_case(res, c):
     case, parts = c["case"], c["model"]
     n, k = c["n"], c["k"]
+    name, a_ = c.get("name", "search_closure_bit_exact"), c.get("pfx", "a_")      # dense: a_…, sparse closure: s_…
     filled = int((c["pub_i"] >= 0).sum())
     nvis = len(c["vis"])
     ties = len(set(c["pub_d"].tolist())) < k
-    res.count("a_eps_%g" % c["eps"]); res.count("a_q_" + c["qkind"])
-    res.count("a_unfilled_rows", int(filled < k)); res.count("a_k_gt_nn", int(k > c["nn"])); res.count("a_k_gt_n", int(k > n))
-    res.count("a_tied_rows", int(ties)); res.count("a_tree_consumed_rng", int(c["consumed"]))
-    res.count("a_random_draws", c["want"]); res.count("a_visited_all", int(nvis == n))
-    res.count("a_visited_total", nvis)
+    res.count(a_ + "eps_%g" % c["eps"]); res.count(a_ + "q_" + c["qkind"])
+    res.count(a_ + "unfilled_rows", int(filled < k)); res.count(a_ + "k_gt_nn", int(k > c["nn"])); res.count(a_ + "k_gt_n", int(k > n))
+    res.count(a_ + "tied_rows", int(ties)); res.count(a_ + "tree_consumed_rng", int(c["consumed"]))
+    res.count(a_ + "random_draws", c["want"]); res.count(a_ + "visited_all", int(nvis == n))
+    res.count(a_ + "visited_total", nvis)
     expanded = nvis > c["leaf"] + c["want"]
     nontrivial = expanded and nvis > k
-    res.case((case["index"]["random_state"], case["query"], k, c["eps"]), nontrivial,
+    res.case((a_, case["index"]["random_state"], case["query"], k, c["eps"]) if a_ != "a_" else
+             (case["index"]["random_state"], case["query"], k, c["eps"]), nontrivial,
              sample={"metric": c["metric"], "n": n, "k": k, "epsilon": c["eps"], "query": case["query"],
                      "answer": c["pub_i"].tolist(), "visited": nvis})
     res.traces += 1
@@ -321,25 +501,27 @@ def judge_kernel_case(res, c):
     # kernel, but compiled into its own body (fastmath) — on integer-valued data every distance is exact;
     # on the 'real' stream a differently associated sum would be a property of the compiler, not of the model
     table_ok = all(c["hd"][j].view(np.uint32) == c["dq"][c["hi"][j]].view(np.uint32) for j in range(k) if c["hi"][j] >= 0)
-    res.count("a_style_" + c["style"])
+    res.count(a_ + "style_" + c["style"])
+    if "form" in c:
+        res.count(a_ + "query_form_" + c["form"])
     if not table_ok:
-        res.count("a_inlined_distance_differs_from_table")
+        res.count(a_ + "inlined_distance_differs_from_table")
         if c["style"] != "real":
-            res.corr_fail("search_closure_bit_exact", {**case, "stage": "distance table"},
+            res.corr_fail(name, {**case, "stage": "distance table"},
                           "dist(data[v], q) from _distance_func", "the closure holds a different float32 for the same pair")
     elif len(parts) != 4:
-        res.corr_fail("search_closure_bit_exact", case, " | ".join(parts), "driver rejected the command"); ok = False
+        res.corr_fail(name, case, " | ".join(parts), "driver rejected the command"); ok = False
     else:
         flag, mheap, msrt = parts[0], parts[1], parts[2]
         if flag != "1":
-            res.corr_fail("search_closure_bit_exact", case, "flag " + flag, "real closure returned: fuel n+1 did not suffice / empty seed set")
+            res.corr_fail(name, case, "flag " + flag, "real closure returned: fuel n+1 did not suffice / empty seed set")
             ok = False
         if mheap != c["heap"]:
-            res.corr_fail("search_closure_bit_exact", {**case, "stage": "raw heap"}, mheap, c["heap"]); ok = False
+            res.corr_fail(name, {**case, "stage": "raw heap"}, mheap, c["heap"]); ok = False
         elif [int(v) for v in parts[3].split()] != c["vis"]:
-            res.corr_fail("search_closure_bit_exact", {**case, "stage": "visited table"}, parts[3], ints_row(c["vis"])); ok = False
+            res.corr_fail(name, {**case, "stage": "visited table"}, parts[3], ints_row(c["vis"])); ok = False
         elif msrt != c["srt"]:
-            res.corr_fail("search_closure_bit_exact", {**case, "stage": "deheap_sort"}, msrt, c["srt"]); ok = False
+            res.corr_fail(name, {**case, "stage": "deheap_sort"}, msrt, c["srt"]); ok = False
         else:
             # public answer = translate ∘ sort ∘ search, distances through the real correction ufunc
             md = np.array([int(v) for v in msrt.split(" ; ")[0].split()], dtype=np.uint32).view(np.float32)
@@ -348,7 +530,7 @@ def judge_kernel_case(res, c):
             exp = bits_row(md) + " ; " + c.get("model_xl", "?")
             got = bits_row(c["pub_d"]) + " ; " + ints_row(c["pub_i"])
             if exp != got:
-                res.corr_fail("search_closure_bit_exact", {**case, "stage": "translated answer"}, exp, got); ok = False
+                res.corr_fail(name, {**case, "stage": "translated answer"}, exp, got); ok = False
     q64 = np.asarray(case["query"], dtype=np.float64)
     bad = row_predicate(c["metric"], c["D64"], q64, k, n, c["pub_i"], c["pub_d"], c["far"])
     if bad:
@@ -537,11 +719,16 @@ def bit_table(res, rng):
 
 def run(res, tier, seed, search):
     rng = np.random.default_rng(seed + 202)
+    rng_s = np.random.default_rng(seed + 202202)    # the sparse kernel-level cases: own stream, the other parts keep theirs
     res.rule = ("(a) real dense indexes over integer-valued data (euclidean = squared surrogate + sqrt, manhattan; tree_init T/F; "
                 "n 20..300, dim 2..6; tie-heavy 'tiny' / grid / half-integer / integer-line (candidates exactly on the rounded bound) streams, plus a gaussian 'real' stream guarded by a check that the closure's own distances equal the table) x queries {data point, +-1 neighbour, half-integer "
                 "offset, random, far} x k in {1,2,3,nn-1,nn,nn+3,2nn+1,n,n+2} x eps in {0,.1,.5}: raw heap, visited table, sorted row and "
                 "public answer compared bit-for-bit with the Lean model; non-trivial = the expansion loop visited vertices beyond the init "
-                "candidates and more than k vertices were visited; (b) real query() on dense/CSR/bit-packed x tree_init x parallel x "
+                "candidates and more than k vertices were visited; (a') the same on real CSR indexes (sparse search_closure; "
+                "sparse_squared_euclidean + sqrt, sparse_manhattan; tree_init T/F; n 20..300, dim 2..12, ~55% stored, every row non-empty, "
+                "rows distinct when tree_init; tiny / grid / half / line / real streams; query handed over as sorted CSR / unsorted CSR / "
+                "CSR with a stored zero / ndarray; on the line stream 40 % of the k are chosen so that a stored point lies exactly on "
+                "the float32 bound of the completed search; search_rng_state must be left unchanged), counters s_…; (b) real query() on dense/CSR/bit-packed x tree_init x parallel x "
                 "compressed, rows judged by the predicate (distinct, in range, -1 last, ascending, true float64 distance in caller "
                 "numbering, zero-norm rows empty); non-trivial = at least one filled slot or a zero-norm row; distinct = hash of "
                 "(index seed, query, k, eps)")
@@ -557,6 +744,14 @@ def run(res, tier, seed, search):
                  ("manhattan", False, 120, 2, 10, "line")]
         kernel_level(res, rng, plans, n_queries=20, combos_per_query=4)   # manhattan x tree_init=True: thorough tier
         res.notes.append("kernel level: %.0f s" % (time.time() - t0)); t0 = time.time()
+        # the cost is JIT only (first sparse index ~19 s, of which ~17 s would otherwise be paid by the first sparse API
+        # configuration; second metric ~12 s; a further closure 1.5 s; the cases themselves are ~free): one index per
+        # metric plus two cheap ones, tree_init alternating with the seed (the full cross is the thorough tier)
+        T = (seed % 2 == 0)
+        splans = [("euclidean", T, 120, 8, 6, "grid"), ("manhattan", not T, 150, 6, 8, "tiny"),
+                  ("manhattan", not T, 120, 2, 10, "line"), ("manhattan", not T, 24, 4, 4, "tiny")]
+        sparse_kernel_level(res, rng_s, splans, n_queries=60, combos_per_query=5)
+        res.notes.append("kernel level, sparse closure: %.0f s" % (time.time() - t0)); t0 = time.time()
         api_level(res, rng, API_BASE + [API_ROTATE[seed % len(API_ROTATE)]], sizes=[(12, 5), (90, 6)], n_queries=12)
         res.notes.append("API level: %.0f s" % (time.time() - t0))
     else:
@@ -568,6 +763,14 @@ def run(res, tier, seed, search):
                                             (100, 5, 8, "real"), (250, 6, 12, "real"), (120, 2, 10, "line"), (200, 3, 6, "line")]:
                     plans.append((metric, tree_init, n, dim, nn, style))
         kernel_level(res, rng, plans, n_queries=30, combos_per_query=5)
+        splans = []
+        for metric in ("euclidean", "manhattan"):
+            for tree_init in (True, False):
+                for (n, dim, nn, style) in [(20, 4, 3, "tiny"), (24, 4, 4, "tiny"), (60, 6, 5, "grid"), (120, 8, 6, "grid"),
+                                            (150, 6, 8, "tiny"), (200, 10, 15, "half"), (300, 12, 10, "half"),
+                                            (100, 8, 8, "real"), (120, 2, 10, "line"), (200, 3, 6, "line")]:
+                    splans.append((metric, tree_init, n, dim, nn, style))
+        sparse_kernel_level(res, rng_s, splans, n_queries=30, combos_per_query=5)
         api_level(res, rng, API_BASE + API_ROTATE, sizes=[(7, 5), (12, 5), (40, 8), (90, 6), (250, 12)], n_queries=24)
 
 
